@@ -17,11 +17,46 @@ import os
 from fractions import Fraction
 
 import c05_gen
+import c05_oracle as orc
 from common.framework import PropertyCheck, frac_str
 
 NEG = float("-inf")
 PINNED_MODEL = bool(os.environ.get("VERIF_C05_PINNED_MODEL"))  # compare against the model of the unrepaired code
-TOL = {"f32": Fraction(1, 50000), "f64": Fraction(1, 10 ** 10)}
+# correspondence tolerance (implementation vs. the exact model replaying the implementation's own frame
+# probabilities): rounding of the search itself over a whole run; 32 eps for the half-precision dtypes
+TOL = {"f32": Fraction(1, 50000), "f64": Fraction(1, 10 ** 10), "f16": Fraction(1, 32), "bf16": Fraction(1, 4)}
+DTYPES = ("f16", "bf16", "f32", "f64")
+
+
+def torch_dtype(name):
+    import torch
+    return {"f16": torch.float16, "bf16": torch.bfloat16, "f32": torch.float32, "f64": torch.float64}[name]
+
+
+def eff_dtype(case):
+    """the coarser of the logits' dtype and — when a language model is fused in — the dtype of the LM's scores:
+    the accuracy the numbers of the run can be held to"""
+    lm = case.get("lm")
+    d = case["dtype"]
+    if lm and lm.get("dtype") and Fraction(lm["beta"]) != 0 and orc.EPS[lm["dtype"]] > orc.EPS[d]:
+        return lm["dtype"]
+    return d
+
+
+def mix_slack(case, beta, factor):
+    """valid-mixture fusion `(1-beta)*tok + beta*lm*(1 - blank)`: `1 - blank` evaluated in floating point carries an
+    ABSOLUTE error of up to a few eps (blank's own rounding, the subtraction), however small its true value (the
+    total probability of the non-blank labels) is; its share of the fused score is beta * lm * (4 eps)."""
+    return 4 * orc.EPS[eff_dtype(case)] * beta * factor
+
+
+def floor_of(case):
+    """Absolute slack of every tolerance comparison: below its smallest normal number a floating dtype has no
+    relative precision (gradual underflow, flush-to-zero inside exp): 64 such units (c05_oracle.FLOOR).
+    Exact streams: none."""
+    if case["stream"] == "exact":
+        return 0
+    return 64 * orc.FLOOR[eff_dtype(case)]
 
 
 # ----------------------------------------------------------------------------- helpers
@@ -44,16 +79,16 @@ def F(s):
     return Fraction(s)
 
 
-def close(a, b, tol):
+def close(a, b, tol, floor=0):
     """a, b: Fraction or word. tol = 0 -> exact."""
     if isinstance(a, str) or isinstance(b, str):
         return a == b
     if a == b:
         return True
-    return abs(a - b) <= tol * max(abs(a), abs(b))
+    return abs(a - b) <= tol * max(abs(a), abs(b)) + floor
 
 
-def leq(a, b, tol):
+def leq(a, b, tol, floor=0):
     """a <= b up to tolerance for Fractions / '-inf'."""
     if a == "-inf":
         return True
@@ -61,7 +96,7 @@ def leq(a, b, tol):
         return False
     if isinstance(a, str) or isinstance(b, str):
         return False
-    return a <= b + tol * max(abs(a), abs(b))
+    return a <= b + tol * max(abs(a), abs(b)) + floor
 
 
 def prefix_hash(p):
@@ -449,13 +484,31 @@ class C05(PropertyCheck):
             "object's current values, the same call made twice must give one answer, ctc_prefix_search_advance is called "
             "twice with copies of its arguments (one answer), no call may write into its caller's tensors (logits, lens, "
             "initial LM state, the arguments of the step function); width 1 (beam never widens) over-sampled with a "
-            "fused LM. T 0..7, V 1..3, width 1..50. non-trivial: width != "
+            "fused LM; (i) THE CALLER'S SCORES: every module case (exact, tolerance, history) is also evaluated against "
+            "the exact probabilities of its logits (rational max-shift + 60-digit decimal exp / ln, no torch: "
+            "c05_oracle) through the Lean specification: the probabilities handed to the step function are the softmax "
+            "of the logits, every reported mass = the prefix-beam recursion (same survivors) on the exact "
+            "probabilities / exact fused scores, never more than the true mass, = true mass when unpruned - at the "
+            "accuracy of the INPUT dtype (first-order rounding budget in units of its eps + its underflow unit); "
+            "dtypes float16 / bfloat16 / float32 / float64 (exact stream: the dtypes in which the run is float-exact); "
+            "a third of the tolerance cases with LARGE-MAGNITUDE / WIDE-RANGE scores, row by row: common offsets up "
+            "to 1e3 (f16) .. 1e9 (f64), deviations spread up to the dtype's exponent range (12 / 80 / 80 / 600: the "
+            "smallest probabilities approach the smallest normal number), a label ruled out by -inf; a quarter of the "
+            "fused tolerance cases with the language model scoring in ANOTHER floating dtype than the logits; dtype of "
+            "the result (long, long, the logits' floating dtype). T 0..7, V 1..3, width 1..50. non-trivial: width != "
             "number of live candidates at some frame; distinct by the case JSON. "
             "(CTCPrefixSearch / ctc_prefix_search_advance have no blank-index or batch_first option: blank is index V, "
             "logits are (T, N, V+1).)")
     assumptions = [
         "float rounding is not modelled: exact streams use float-exact domains (compared as rationals), the tolerance "
-        "stream hands torch's own softmax / fused values to the model and compares within 2e-5 (f32) / 1e-10 (f64)",
+        "stream hands torch's own softmax / fused values to the model and compares within 2e-5 (f32) / 1e-10 (f64) / "
+        "32 eps (f16, bf16) plus 64 underflow units of the dtype (absolute)",
+        "the caller's scores: exp / ln of python's decimal module (60 digits) are trusted as the exact softmax / fusion "
+        "of the case's logits; the Lean specification is evaluated on these numbers (rounded to 36 significant "
+        "digits); the allowed distance of a floating-point run from them is a first-order rounding budget: per frame "
+        "(range of the row + V + 9) eps for a softmax output, + 20 eps for a fused score, + (1 + that) eps / (total "
+        "probability of the non-blank labels) for the valid mixture's (1 - blank), + 4 eps for the recursion; "
+        "observed errors on the unmodified tree stay below 0.27 of the budget",
         "topk: any maximal-K selection in non-increasing order; the implementation's selection is given to the model, "
         "which checks that it is a legitimate top-K of the candidate totals",
         "the language model is an arbitrary function of (initial context, prefix) (harness LMs: stateful rolling hash "
@@ -754,8 +807,14 @@ class C05(PropertyCheck):
                     zs = set(rng.sample(range(V + 1), nz))
                     fr.append([enc(0.0 if i in zs else NEG) for i in range(V + 1)])
                 logits.append(fr)
+            # every floating dtype in which the run is float-exact: all masses are multiples of 2^-bits with
+            # bits = the largest sum over the frames of log2(#labels with probability > 0) of an element
+            bits = max([sum(int(math.log2(sum(1 for x in fr[n] if x == 0.0))) for fr in logits) for n in range(N)] + [0])
+            dtype = rng.choice(["f32", "f32", "f64", "f64", "f16", "bf16"])
+            if (dtype == "f16" and bits > 10) or (dtype == "bf16" and bits > 7):
+                dtype = "f32"
             yield self.vary_module(rng, {"kind": "module", "stream": "exact", "V": V, "width": self.pick_width(rng, V, T),
-                                         "dtype": rng.choice(["f32", "f64"]), "logits": logits, "N": N,
+                                         "dtype": dtype, "logits": logits, "N": N,
                                          "lens": self.gen_lens(rng, N, T), "lm": None})
 
     def gen_advance(self, rng, n):
@@ -780,27 +839,40 @@ class C05(PropertyCheck):
             V = rng.choice([1, 2, 2, 3])
             T = rng.choice([0, 1, 2, 3, 4, 4, 5])
             N = rng.choice([1, 2, 3])
-            dtype = rng.choice(["f32", "f64"])
+            dtype = rng.choice(["f32", "f32", "f32", "f64", "f64", "f64", "f16", "bf16"])
             logits = [[[self.rand_logit(rng, dtype) for _ in range(V + 1)] for _ in range(N)] for _ in range(T)]
+            wide = set()
+            if T and rng.random() < 0.35:
+                # large-magnitude / wide-range scores (per element, row by row): see c05_gen.widen_rows
+                for n in range(N):
+                    if N > 1 and rng.random() < 0.3:
+                        continue
+                    rows, cls = c05_gen.widen_rows(rng, [logits[t][n] for t in range(T)], dtype)
+                    for t in range(T):
+                        logits[t][n] = rows[t]
+                    wide |= cls
             lm = None
             if rng.random() < 0.6 and T <= 4:
                 lm = self.gen_lm(rng, N)
             width = self.pick_width(rng, V, T)
             if lm is not None and rng.random() < 0.2:
                 width = 1       # boundary: the beam never widens (prev_width == width from the first frame on)
-            yield self.vary_module(rng, {"kind": "module", "stream": "tol", "V": V, "width": width,
-                                         "dtype": dtype, "logits": logits, "N": N, "lens": self.gen_lens(rng, N, T),
-                                         "lm": lm})
+            if lm is not None and rng.random() < 0.25:
+                # the language model scores in another floating dtype than the logits (type promotion inside)
+                lm["dtype"] = rng.choice([d for d in DTYPES if d != dtype])
+            case = {"kind": "module", "stream": "tol", "V": V, "width": width,
+                    "dtype": dtype, "logits": [[[enc(x) for x in row] for row in fr] for fr in logits], "N": N,
+                    "lens": self.gen_lens(rng, N, T), "lm": lm}
+            if wide:
+                case["wide"] = sorted(wide)
+            yield self.vary_module(rng, case)
 
     @staticmethod
     def rand_logit(rng, dtype):
-        import struct
         x = rng.gauss(0.0, 1.5)
         if rng.random() < 0.05:
             x = -30.0 * rng.random()
-        if dtype == "f32":
-            x = struct.unpack("f", struct.pack("f", x))[0]
-        return x
+        return c05_gen.round_dtype(x, dtype)
 
     def malformed(self):
         base = {"kind": "module", "stream": "exact", "V": 1, "dtype": "f32", "lens": None, "lm": None,
@@ -835,13 +907,13 @@ class C05(PropertyCheck):
         from pydrobert.torch import _decoding, functional
         from pydrobert.torch.modules import CTCPrefixSearch
         self._cache = {}
-        dtype = torch.float32 if case["dtype"] == "f32" else torch.float64
+        dtype = torch_dtype(case["dtype"])
         V, width = case["V"], case["width"]
         rec = Recorder(_decoding.ctc_prefix_search_advance)
         lm_spec = case.get("lm")
         lm = None
         if lm_spec is not None:
-            lm = make_lm(lm_spec.get("vocab", V), lm_spec, dtype)
+            lm = make_lm(lm_spec.get("vocab", V), lm_spec, torch_dtype(lm_spec.get("dtype") or case["dtype"]))
         grad = bool(case.get("grad"))
         ctx = contextlib.nullcontext if grad else torch.no_grad
         if case["kind"] == "module":
@@ -907,6 +979,7 @@ class C05(PropertyCheck):
                 obj["repeat"] = self.result_diff((y, y_lens, probs), again)
                 obj["fresh"] = self.result_diff((y, y_lens, probs), anew)
             y, y_lens, probs = y.detach(), y_lens.detach(), probs.detach()
+            obj["dtypes"] = [str(y.dtype), str(y_lens.dtype), str(probs.dtype), str(dtype)]
             lens_l = [T] * N if case["lens"] is None else list(case["lens"])
             if y.shape[1:] != (N, width) or y_lens.shape != (N, width) or probs.shape != (N, width):
                 return {"shape_error": [list(y.shape), list(y_lens.shape), list(probs.shape)]}
@@ -932,6 +1005,8 @@ class C05(PropertyCheck):
                 elements.append(el)
             obs = {"elements": elements, "object": obj}
             self.attach_lm_tables(case, obs, rec.calls, lens_l, dtype)
+            if not case.get("expect_error") and not case.get("malform"):
+                self.attach_oracle(case, obs, lens_l, final["beta"])
         else:
             frames = case["frames"]
             T = len(frames)
@@ -1129,13 +1204,15 @@ class C05(PropertyCheck):
             return
         V = case["V"]
         beta = float(Fraction(lm_spec["beta"]))
-        tol = TOL[case["dtype"]]
+        tol = TOL[eff_dtype(case)]
+        floor = floor_of(case)
 
         h0s = lm_spec.get("init")
 
         def factor(prefix, n):
             """the LM factor of the fusion formula: the part that needs a transcendental function"""
-            lg = torch.tensor(lm_row(lm_spec, V, prefix, 1 if h0s is None else h0s[n]), dtype=dtype)
+            lg = torch.tensor(lm_row(lm_spec, V, prefix, 1 if h0s is None else h0s[n]),
+                              dtype=torch_dtype(lm_spec.get("dtype") or case["dtype"]))
             if lm_spec["valid"]:
                 return lg.softmax(-1)
             return (beta * lg.log_softmax(-1)).exp()
@@ -1161,7 +1238,13 @@ class C05(PropertyCheck):
                         continue  # slot holds no prefix
                     got = [F(x) for x in el["steps"][t]["ext"][k]]
                     want = tab.get(tuple(p))
-                    if want is None or any(isinstance(g, str) or not close(g, w, tol) for g, w in zip(got, want)):
+                    # valid mixture: the formula's (1 - blank) is formed in floating point (absolute error of a few
+                    # eps, however small the true value): that much of beta * LM factor is rounding, not a deviation
+                    slack = [Fraction(0)] * V
+                    if lm_spec["valid"] and tuple(p) in tab:
+                        slack = [mix_slack(case, Fraction(beta), Fraction(float(x))) for x in factor(tuple(p), n).tolist()]
+                    if want is None or any(isinstance(g, str) or not close(g, w, tol, floor + sl)
+                                           for g, w, sl in zip(got, want, slack)):
                         dev.append({"t": t, "slot": k, "prefix": p, "got": [str(g) for g in got],
                                     "want": None if want is None else [str(w) for w in want]})
                     else:
@@ -1173,6 +1256,41 @@ class C05(PropertyCheck):
             # module carries at the time of the call (None: plain fusion)
             el["lm_factor"] = factors
             el["mix"] = frac_str(Fraction(beta)) if lm_spec["valid"] else None
+
+    def attach_oracle(self, case, obs, lens_l, beta):
+        """The exact frame probabilities / fused extension scores of every element AS A FUNCTION OF THE CASE'S
+        LOGITS (c05_oracle: rational max-shift, decimal exp at 60 digits — no torch, no floats), for the Lean
+        specification, and the rounding budget of a floating-point evaluation in the case's dtype."""
+        V = case["V"]
+        eps = orc.EPS[case["dtype"]]
+        eps_mass = orc.EPS[eff_dtype(case)]
+        lm_spec = case.get("lm")
+        fused = lm_spec is not None and Fraction(lm_spec["beta"]) != 0
+        beta_q = Fraction(beta)             # the number the object holds (a python float or int), exactly
+        h0s = (lm_spec or {}).get("init")
+        for n, el in enumerate(obs["elements"]):
+            frames, tables, ftol, total = [], [], [], Fraction(1)
+            factors = {}
+            for t in range(lens_l[n]):
+                row = [dec(x) for x in case["logits"][t][n]]
+                tok, blank = orc.frame_exact(row)
+                frames.append({"tok": [frac_str(x) for x in tok], "blank": frac_str(blank)})
+                ftol.append(frac_str(orc.growth(orc.frame_units(row), eps)))
+                total += orc.ext_units(row, sum(tok, Fraction(0)), bool(fused and lm_spec["valid"]), fused) + 4
+                if fused:
+                    tab = []
+                    for L in range(t + 1):
+                        for p in itertools.product(range(V), repeat=L):
+                            if p not in factors:
+                                factors[p] = orc.lm_factor_exact(lm_row(lm_spec, V, p, 1 if h0s is None else h0s[n]),
+                                                                 lm_spec["valid"], beta_q)
+                            ext = orc.fuse_exact(tok, blank, factors[p], lm_spec["valid"], beta_q)
+                            tab.append([list(p), [frac_str(x) for x in ext]])
+                    tables.append(tab)
+            el["oracle"] = {"frames": frames, "ext_table": tables if fused else None, "frame_tol": ftol,
+                            "mass_tol": frac_str(orc.growth(total, eps_mass)),
+                            "frame_floor": frac_str(orc.FLOOR[case["dtype"]]),
+                            "floor": frac_str(4 * (lens_l[n] + 1) * (V + 1) * orc.FLOOR[eff_dtype(case)])}
 
     # ------------------------------------------------------------------ model
     def model_request(self, case):
@@ -1208,6 +1326,10 @@ class C05(PropertyCheck):
                 e["lm_h0"] = el["lm_h0"]
             if el.get("lm_factor") is not None:
                 e["lm_factor"], e["mix"] = el["lm_factor"], el["mix"]
+            if el.get("oracle") is not None:
+                e["oracle"] = {"frames": el["oracle"]["frames"]}
+                if el["oracle"]["ext_table"] is not None:
+                    e["oracle"]["ext_table"] = el["oracle"]["ext_table"]
             els.append(e)
         return {"op": "c05.case", "case": {"fix": not PINNED_MODEL, "V": case["V"], "width": case["width"],
                                            "elements": els}}
@@ -1217,12 +1339,12 @@ class C05(PropertyCheck):
         return case.get("init") is None and (case["V"] + 1) ** min(el["len"], len(el["steps"])) <= 4200
 
     # ------------------------------------------------------------------ correspondence
-    def cmp_state(self, where, a, m, tol, out):
+    def cmp_state(self, where, a, m, tol, out, floor=0):
         for fld in ("prefixes", "last", "lens", "is_prefix"):
             if a[fld] != m[fld]:
                 out.append(f"{where}.{fld}: impl={a[fld]} model={m[fld]}")
         for fld in ("nb", "b"):
-            if len(a[fld]) != len(m[fld]) or any(not close(F(x), F(y), tol) for x, y in zip(a[fld], m[fld])):
+            if len(a[fld]) != len(m[fld]) or any(not close(F(x), F(y), tol, floor) for x, y in zip(a[fld], m[fld])):
                 out.append(f"{where}.{fld}: impl={a[fld]} model={m[fld]}")
 
     def compare(self, case, impl, model):
@@ -1230,21 +1352,22 @@ class C05(PropertyCheck):
             return []
         if "error" in impl or "elements" not in impl:
             return [f"implementation gave {impl.get('error', impl)}"]
-        tol = 0 if case["stream"] == "exact" else TOL[case["dtype"]]
+        tol = 0 if case["stream"] == "exact" else TOL[eff_dtype(case)]
+        floor = floor_of(case)
         out = []
         for n, (a, m) in enumerate(zip(impl["elements"], model["elements"])):
             mm = m["model"]
             for t, (sa, sm) in enumerate(zip(a["steps"], mm["steps"])):
                 w = f"n={n} t={t}"
-                self.cmp_state(w + " out", sa["out"], sm["out"], tol, out)
+                self.cmp_state(w + " out", sa["out"], sm["out"], tol, out, floor)
                 if sa["src"] != sm["src"] or sa["is_nonext"] != sm["is_nonext"]:
                     out.append(f"{w}: src/is_nonext impl={sa['src']},{sa['is_nonext']} model={sm['src']},{sm['is_nonext']}")
                 if t + 1 < len(a["steps"]):
-                    self.cmp_state(f"n={n} carried after t={t}", a["steps"][t + 1]["in"], sm["carried"], tol, out)
+                    self.cmp_state(f"n={n} carried after t={t}", a["steps"][t + 1]["in"], sm["carried"], tol, out, floor)
                 viol = Fraction(sm["sel_violation"])
                 if not sm["sel_ok"] and not sm["cand_nan"] and t < a["len"]:
                     scale = max([abs(F(x)) for x in sa["out"]["nb"] + sa["out"]["b"] if not isinstance(F(x), str)] + [Fraction(1, 10 ** 30)])
-                    if tol == 0 or viol > tol * scale:
+                    if tol == 0 or viol > tol * scale + floor:
                         out.append(f"{w}: the implementation's selection {sa['sel']} is not a top-K of the model's "
                                    f"candidate totals (violation {float(viol):.3g})")
                 if out:
@@ -1252,13 +1375,17 @@ class C05(PropertyCheck):
             if a.get("lm_factor") is not None and mm.get("lm_ext") is not None:
                 # what the module handed to the step function as `ext_probs_t` vs. the Lean model of the fusion
                 # (`lmExt`: fuse(mix = the module's current beta / None, LM factor, tok, blank)) on real slots
-                tl = TOL[case["dtype"]]
+                tl = TOL[eff_dtype(case)]
                 for t, (sa, em) in enumerate(zip(a["steps"], mm["lm_ext"])):
                     st = sa["in"]
+                    ftab = {tuple(p): row for p, row in (a["lm_factor"][t] if t < len(a["lm_factor"]) else [])}
                     for k in range(len(st["nb"])):
                         if isinstance(tot_of(st, k), str) or k >= len(em):
                             continue
-                        if any(not close(F(x), F(y), tl) for x, y in zip(sa["ext"][k], em[k])):
+                        frow = ftab.get(tuple(st["prefixes"][k])) if a.get("mix") is not None else None
+                        slack = [Fraction(0)] * len(em[k]) if frow is None else \
+                            [mix_slack(case, Fraction(a["mix"]), Fraction(x)) for x in frow]
+                        if any(not close(F(x), F(y), tl, floor + sl) for x, y, sl in zip(sa["ext"][k], em[k], slack)):
                             out.append(f"n={n} t={t} slot {k} (prefix {st['prefixes'][k]}): ext_probs_t impl={sa['ext'][k]} "
                                        f"model(lmExt, mix={a['mix']})={em[k]}")
                             break
@@ -1271,7 +1398,7 @@ class C05(PropertyCheck):
                         break
             ra, rm = a["result"], mm["result"]
             if ra["prefixes"] != rm["prefixes"] or ra["lens"] != rm["lens"] or \
-                    any(not close(F(x), F(y), tol) for x, y in zip(ra["probs"], rm["probs"])):
+                    any(not close(F(x), F(y), tol, floor) for x, y in zip(ra["probs"], rm["probs"])):
                 out.append(f"n={n} result: impl={ra} model={rm}")
         return out[:6]
 
@@ -1304,7 +1431,17 @@ class C05(PropertyCheck):
         widths = case.get("widths") or None
         width = widths[-1] if widths else case["width"]       # slots of the result
         S0 = case["init"]["tm1"] if case.get("init") else 0
-        tol = 0 if case["stream"] == "exact" else TOL[case["dtype"]]
+        tol = 0 if case["stream"] == "exact" else TOL[eff_dtype(case)]
+        floor = floor_of(case)
+        dts = ob.get("dtypes")
+        lmd = (case.get("lm") or {}).get("dtype")
+        okd = {dts[3]} if dts else set()
+        if dts and lmd:     # LM scores in another dtype: torch's type promotion decides (not documented)
+            import torch
+            okd |= {str(torch_dtype(lmd)), str(torch.promote_types(torch_dtype(lmd), torch_dtype(case["dtype"])))}
+        if dts and (dts[0] != "torch.int64" or dts[1] != "torch.int64" or dts[2] not in okd):
+            fails.append((f"result dtypes: y {dts[0]}, y_lens {dts[1]} (documented: long), y_probs {dts[2]} for logits "
+                          f"of dtype {dts[3]}", "C05.dtype"))
         zero_probs = any(F(x) == 0 for el in impl["elements"] for s in el["steps"] for x in s["tok"] + [s["blank"]])
         for n, el in enumerate(impl["elements"]):
             res = el["result"]
@@ -1356,7 +1493,7 @@ class C05(PropertyCheck):
                 if len(p) > el["len"] + S0:
                     fails.append((f"n={n}: slot {k} prefix longer ({len(p)}) than its input ({el['len'] + S0})", "C05.too_long"))
             for k in range(width - 1):
-                if not leq(probs[k + 1], probs[k], tol):
+                if not leq(probs[k + 1], probs[k], tol, floor):
                     fails.append((f"n={n}: probabilities not non-increasing at slot {k}: {res['probs']}", "C05.order"))
                     break
             for k in range(width):
@@ -1366,12 +1503,12 @@ class C05(PropertyCheck):
             al = el.get("alone")
             if al is not None:
                 same = al["prefixes"] == res["prefixes"] and al["lens"] == res["lens"] and \
-                    all(close(F(x), F(y), tol) for x, y in zip(al["probs"], res["probs"]))
+                    all(close(F(x), F(y), tol, floor) for x, y in zip(al["probs"], res["probs"]))
                 if not same:
                     # slots without a real prefix may legitimately differ in their (unspecified) tokens
                     ra = [(tuple(al["prefixes"][k]), F(al["probs"][k])) for k in range(width) if F(al["probs"][k]) != "-inf"]
                     rb = [(tuple(res["prefixes"][k]), probs[k]) for k in range(width) if probs[k] != "-inf"]
-                    if len(ra) != len(rb) or any(x[0] != y[0] or not close(x[1], y[1], tol) for x, y in zip(ra, rb)):
+                    if len(ra) != len(rb) or any(x[0] != y[0] or not close(x[1], y[1], tol, floor) for x, y in zip(ra, rb)):
                         fails.append((f"n={n}: result differs from searching the element's own frames alone: "
                                       f"batched={rb[:6]} alone={ra[:6]}", "C05.batch"))
             lmc = case.get("lm")
@@ -1398,17 +1535,17 @@ class C05(PropertyCheck):
             beam = {tuple(e["p"]): Fraction(e["nb"]) + Fraction(e["b"]) for e in spec["beam"]}
             fin = [(k, tuple(res["prefixes"][k]), probs[k]) for k in range(width) if isinstance(probs[k], Fraction)]
             for k, p, pr in fin:
-                if has_mass and pr > 0 and not leq(pr, mass.get(p, Fraction(0)), tol):
+                if has_mass and pr > 0 and not leq(pr, mass.get(p, Fraction(0)), tol, floor):
                     fails.append((f"n={n}: slot {k} reports {float(pr):.6g} for {list(p)}, more than its true mass "
                                   f"{float(mass.get(p, 0)):.6g}", "C05.over"))
-                if pr > 0 and not close(pr, beam.get(p, Fraction(0)), tol):
+                if pr > 0 and not close(pr, beam.get(p, Fraction(0)), tol, floor):
                     fails.append((f"n={n}: slot {k} reports {float(pr):.6g} for {list(p)}, the width-{width} "
                                   f"prefix-beam recursion gives {float(beam.get(p, 0)):.6g}", "C05.beam_mass"))
             got = {}
             for k, p, pr in fin:
                 got[p] = max(got.get(p, Fraction(0)), pr)
             for p, b in beam.items():
-                if b > 0 and not close(got.get(p, Fraction(0)), b, tol):
+                if b > 0 and not close(got.get(p, Fraction(0)), b, tol, floor):
                     fails.append((f"n={n}: prefix {list(p)} has mass {float(b):.6g} in the prefix-beam recursion but "
                                   f"the search reports {float(got.get(p, 0)):.6g}", "C05.poison.neginf_duplicate"
                                   if p not in got or got[p] == 0 else "C05.beam_mass"))
@@ -1416,7 +1553,7 @@ class C05(PropertyCheck):
             pruned = any(f["pruned"] for f in spec["frames"])
             if not pruned and has_mass:
                 for p, m in mass.items():
-                    if m > 0 and not close(got.get(p, Fraction(0)), m, tol):
+                    if m > 0 and not close(got.get(p, Fraction(0)), m, tol, floor):
                         fails.append((f"n={n}: nothing had to be pruned, prefix {list(p)} has true mass {float(m):.6g} "
                                       f"but the search reports {float(got.get(p, 0)):.6g}", "C05.lost_unpruned"))
                         break
@@ -1433,7 +1570,78 @@ class C05(PropertyCheck):
                         fails.append((f"n={n}: the prefixes kept at frame {t} are not the best {wt} candidates "
                                       f"of the prefix-beam recursion", "C05.not_topk"))
                         break
+            # --- the masses of the CALLER'S scores (specification on the exact softmax / fusion of the logits)
+            ex = model["elements"][n].get("spec_exact")
+            if ex and el.get("oracle"):
+                fails.extend(self.exact_predicate(case, n, el, fin, ex, el["oracle"]))
         return fails[:8]
+
+    @staticmethod
+    def exact_predicate(case, n, el, fin, ex, o):
+        """The property against the exact probabilities of the logits the caller gave (c05_oracle), at the
+        accuracy of the INPUT dtype: tolerance = first-order rounding budget of the run in that dtype
+        (`mass_tol`, relative) + the dtype's underflow unit (`floor`, absolute).
+        (a) the probabilities handed to the step function are the softmax of the logits;
+        (b) every reported mass = the prefix-beam recursion (same survivors) on the exact probabilities,
+        (c) never more than the true mass (all alignments), (d) = the true mass when nothing was pruned."""
+        out = []
+        dt = case["dtype"]
+        rel, fl, ffl = Fraction(o["mass_tol"]), Fraction(o["floor"]), Fraction(o["frame_floor"])
+        for t, (s, fo, ft) in enumerate(zip(el["steps"][: el["len"]], o["frames"], o["frame_tol"])):
+            ft = Fraction(ft)
+            got = [F(x) for x in s["tok"]] + [F(s["blank"])]
+            want = [Fraction(x) for x in fo["tok"]] + [Fraction(fo["blank"])]
+            bad = [i for i, (g, w) in enumerate(zip(got, want)) if isinstance(g, str) or abs(g - w) > ft * w + ffl]
+            if bad:
+                i = bad[0]
+                g, w = got[i], want[i]
+                err = "" if isinstance(g, str) or w == 0 else f" (relative error {float(abs(g - w) / w):.3g}, {dt} allows {float(ft):.3g})"
+                out.append((f"n={n}: frame {t}: the probability of {'the blank' if i == len(got) - 1 else f'token {i}'} handed "
+                            f"to the step function is {g if isinstance(g, str) else repr(float(g))}, the softmax of the "
+                            f"logits {case['logits'][t][n]} gives {float(w)!r}{err}", "C05.frame_probs"))
+                break
+        beam = {tuple(e["p"]): Fraction(e["nb"]) + Fraction(e["b"]) for e in ex["beam"]}
+        mass = None if ex["mass"] is None else {tuple(e["p"]): Fraction(e["m"]) for e in ex["mass"]}
+
+        def off(x, y):
+            return "" if y == 0 else f" (relative error {float(abs(x - y) / y):.3g}, {dt} allows {float(rel):.3g})"
+
+        got = {}
+        for k, p, pr in fin:
+            got[p] = max(got.get(p, Fraction(0)), pr)
+        for k, p, pr in fin:
+            b = beam.get(p, Fraction(0))
+            if (pr > 0 or p in beam) and abs(pr - b) > rel * b + fl:
+                out.append((f"n={n}: slot {k} reports {float(pr)!r} for {list(p)}; the width-{case['width']} prefix-beam "
+                            f"recursion on the exact probabilities of the given logits gives {float(b)!r}{off(pr, b)}",
+                            "C05.exact.beam_mass"))
+                break
+        for k, p, pr in fin:
+            if mass is not None and pr > 0 and pr > mass.get(p, Fraction(0)) * (1 + rel) + fl:
+                m = mass.get(p, Fraction(0))
+                out.append((f"n={n}: slot {k} reports {float(pr)!r} for {list(p)}, MORE than its true mass {float(m)!r} "
+                            f"under the given logits{off(pr, m)}", "C05.exact.over"))
+                break
+        for p, b in beam.items():
+            if p not in got and b > fl:
+                out.append((f"n={n}: prefix {list(p)} has mass {float(b)!r} in the prefix-beam recursion on the exact "
+                            f"probabilities of the given logits but is not reported", "C05.exact.beam_mass"))
+                break
+        # (e) in aggregate (C05_reported_total): without fusion, or with plain fusion (LM factor <= 1), the frames are
+        # sub-stochastic, so the reported probabilities add up to at most one
+        lmc = case.get("lm")
+        if not (lmc and lmc["valid"] and Fraction(lmc["beta"]) != 0):
+            tot = sum((pr for _k, _p, pr in fin if pr > 0), Fraction(0))
+            if tot > 1 + rel + fl:
+                out.append((f"n={n}: the reported probabilities add up to {float(tot)!r} > 1", "C05.exact.total"))
+        if mass is not None and not any(f["pruned"] for f in ex["frames"]):
+            for p, m in mass.items():
+                x = got.get(p, Fraction(0))
+                if abs(x - m) > rel * m + fl:
+                    out.append((f"n={n}: nothing had to be pruned, prefix {list(p)} has true mass {float(m)!r} under the "
+                                f"given logits but the search reports {float(x)!r}{off(x, m)}", "C05.exact.unpruned"))
+                    break
+        return out
 
     # ------------------------------------------------------------------ evidence helpers
     def nontrivial(self, case, impl):
@@ -1466,9 +1674,14 @@ class C05(PropertyCheck):
             t.append("lm kind=" + lm.get("kind", "hash") + ("+" + lm.get("second", "shapes") if lm.get("kind") == "fusion" else ""))
             if lm.get("init") is not None:
                 t.append("lm initial-state-by-caller")
+            if lm.get("dtype"):
+                t.append(f"lm scores in another dtype ({lm['dtype']} under {case['dtype']} logits)")
         else:
             t.append("no-lm")
         t.append("gen=" + case.get("gen", "base"))
+        for wd in case.get("wide") or []:
+            t.append("scores:" + {"offset": "large common offset", "spread": "range up to the dtype's exponent range",
+                                  "-inf": "label ruled out by -inf"}.get(wd, wd))
         if case["kind"] == "module":
             t.append("layout=" + (case.get("layout") or "contig"))
             t.append("lens=" + ("None" if case["lens"] is None else case.get("lens_dtype", "i64") +
@@ -1555,6 +1768,10 @@ class C05(PropertyCheck):
                                                order=[a for a in life.get("order", []) if a != k]))
         if case.get("lm") and case["lm"].get("init") is not None:
             yield dict(case, lm=dict(case["lm"], init=None))
+        if case.get("lm") and case["lm"].get("dtype"):
+            yield dict(case, lm={k: v for k, v in case["lm"].items() if k != "dtype"})
+        if case.get("wide"):
+            yield {k: v for k, v in case.items() if k != "wide"}
         if case.get("lm") and case["lm"].get("kind", "hash") != "hash":
             yield dict(case, lm=dict(case["lm"], kind="hash"))
         if case.get("widths"):
@@ -1597,7 +1814,7 @@ class C05(PropertyCheck):
             for w in (case["width"] - 1, case["width"] // 2):
                 if 1 <= w < case["width"]:
                     yield dict(case, width=w)
-        if case["dtype"] == "f32" and case["stream"] == "exact":
+        if case["dtype"] in ("f16", "bf16", "f32") and case["stream"] == "exact":
             yield dict(case, dtype="f64")
 
 
